@@ -162,6 +162,13 @@ fn main() {
     for n in [11usize, 12] {
         lists.push((0..n).map(|i| CapSpec { id: 9, body: (0..14).map(|b| (b * 16 + i) as u8).collect() }).collect());
     }
+    // Every capability id 0..=255 (0 is the PCIe null capability, a list element like any other;
+    // 0xff is not special either) as the first, a middle and the last entry of a four-entry list.
+    for id in 0..=255u8 {
+        for pos in 0..4usize {
+            lists.push((0..4).map(|i| CapSpec { id: if i == pos { id } else { 9 }, body: vec![4 + i as u8, id ^ 0x5a] }).collect());
+        }
+    }
     let mut ev = 0;
     for l in &lists {
         for rev in [false, true] {
@@ -184,7 +191,7 @@ fn main() {
             }
         }
     }
-    c.add_sweep(&format!("capabilities: all lists up to length {} over 8 shapes, long lists of 5..48 entries, x 2 placements; 40 lists x 16 further status-register contents", maxlen), ev, lists.len() as u64, true, J::obj());
+    c.add_sweep(&format!("capabilities: all lists up to length {} over 8 shapes, long lists of 5..48 entries, every capability id 0..=255 at every position of a four-entry list, x 2 placements; 40 lists x 16 further status-register contents", maxlen), ev, lists.len() as u64, true, J::obj());
     c.add_sample(J::obj().set("case", J::s("bar_info(slot 2) on Mem64{size 2^33, prefetchable} at 0x8_0000_0000 with command 0x0407 -> Memory{Width64, prefetchable, address, size}; command and BARs restored; sizing writes with decode off")));
     c.finish();
 }
